@@ -492,7 +492,14 @@ func (ch c10) runCase(c *core.Ctx, envPlain, envAuth *hs.Env, k c10case, idx int
 	inCopy := false
 	switch k.Pos {
 	case "between":
-		if _, ok := expect("first query", q("a"), "TDCZ"); !ok {
+		// the message before the one under test: a few bytes, or a body around the 4 KiB granule, or one
+		// that fills the limit
+		first := "a"
+		if n := []int{0, 0, 4094, 4095, 4096, 5000, 8191, 8192, k.Eff - 1}[idx%9]; n > 0 && n < k.Eff && n <= 1<<20 {
+			first = "a" + strings.Repeat(" ", n-1)
+			c.Count("large_message_before_the_message_under_test", 1)
+		}
+		if _, ok := expect("first query", q(first), "TDCZ"); !ok {
 			return
 		}
 	case "batch":
